@@ -646,7 +646,34 @@ def rule_extractor_gate(ctx: Ctx, rep: Report) -> None:
     rep.floor(rule, 3)
 
 
+def rule_identifier_fields(ctx: Ctx, rep: Report) -> None:
+    """C11.identifier_fields: BIP370 identifies a version 2 psbt by its unsigned
+    transaction with the *sequences* zeroed -- an Updater may still change
+    those -- and everything else as it is: version, computed lock time, the
+    outpoints, the outputs. In `_unsigned_tx` the version and the lock time
+    handed to `Tx(...)` are the psbt's own whether or not the transaction is
+    built for the identifier: a lock time zeroed for the identifier gives two
+    psbts of different transactions one identifier, and combine merges them."""
+    from sa.canon import expand
+    rule = "C11.identifier_fields"
+    fi = ctx.func(f"{P}._unsigned_tx")
+    flag = [p_ for p_ in fi.params() if p_ != fi.params()[0]]
+    rets = [r for r in own_nodes(fi.node) if isinstance(r, ast.Return) and isinstance(r.value, ast.Call) and call_name(r.value) == "Tx" and len(r.value.args) >= 2]
+    if len(rets) != 1 or not flag:
+        rep.unknown(rule, "_unsigned_tx", fi.where(), f"{len(rets)} returns of a Tx")
+        return
+    p0 = fi.params()[0]
+    for k, what, attr in ((0, "version", "tx_version"), (1, "lock time", "lock_time")):
+        text = str(expand(fi, rets[0].value.args[k]))
+        names = {x.id for x in ast.walk(ast.parse(text, mode="eval")) if isinstance(x, ast.Name)}
+        ok = f"{p0}.{attr}" in text.replace(" ", "") and not (names & set(flag))
+        rep.ob(rule, f"_unsigned_tx:{what}", ok, fi.where(rets[0]), f"the {what} is the psbt's own, identifier or not" if ok else
+               f"the {what} of the unsigned transaction is `{text[:70]}`: it depends on `{flag[0]}` (or is not the psbt's): psbts of transactions that differ in it share an identifier")
+    rep.floor(rule, 2)
+
+
 RULES = [
+    ("C11.identifier_fields", rule_identifier_fields),
     ("C11.extractor_gate", rule_extractor_gate),
     ("C11.unchanged_is_equality", rule_unchanged_is_equality),
     ("C11.params_forwarded", rule_params_forwarded_),
